@@ -248,6 +248,9 @@ pub enum Src {
   StreamCount(usize),
   /// from_iter(0..n) over a pull-counting iterator
   IterCount(usize),
+  /// from_future over a cloneable future that counts its runs (`src_calls`)
+  FromFuture(i64),
+  FromFutureResult(Result<i64, E>),
 }
 
 #[derive(Clone, Debug, PartialEq, Eq, Hash)]
@@ -298,7 +301,13 @@ impl Pipe {
     match self {
       Pipe::S(s) => matches!(
         s,
-        Src::Interval(_) | Src::IntervalAt(..) | Src::Timer(..) | Src::TimerAt(..) | Src::StreamCount(_)
+        Src::Interval(_)
+          | Src::IntervalAt(..)
+          | Src::Timer(..)
+          | Src::TimerAt(..)
+          | Src::StreamCount(_)
+          | Src::FromFuture(_)
+          | Src::FromFutureResult(_)
       ),
       Pipe::O1(op, p) => op.uses_time() || p.uses_time(),
       Pipe::O2(_, a, b) => a.uses_time() || b.uses_time(),
@@ -517,6 +526,27 @@ impl Iterator for CountingIter {
       self.pulls.fetch_add(1, Ordering::SeqCst);
     }
     n
+  }
+}
+
+/// ready future that counts how many distinct instances of it were run
+#[derive(Clone)]
+pub struct CountingFut<T> {
+  v: T,
+  runs: Arc<AtomicUsize>,
+  polled: bool,
+}
+impl<T: Clone + Unpin> std::future::Future for CountingFut<T> {
+  type Output = T;
+  fn poll(
+    mut self: std::pin::Pin<&mut Self>,
+    _cx: &mut std::task::Context<'_>,
+  ) -> std::task::Poll<T> {
+    if !self.polled {
+      self.polled = true;
+      self.runs.fetch_add(1, Ordering::SeqCst);
+    }
+    std::task::Poll::Ready(self.v.clone())
   }
 }
 
@@ -771,6 +801,16 @@ macro_rules! build_fns {
           let $cxs = cx;
           let st = CountingStream { i: 0, n: *n, pulls: c.pulls.clone() };
           observable::from_stream(st, $sched).on_error_map(inf::<E>).box_it()
+        }
+        Src::FromFuture(v) => {
+          let $cxs = cx;
+          let f = CountingFut { v: V::I(*v), runs: c.src_calls.clone(), polled: false };
+          observable::from_future(f, $sched).on_error_map(inf::<E>).box_it()
+        }
+        Src::FromFutureResult(r) => {
+          let $cxs = cx;
+          let f = CountingFut { v: r.map(V::I), runs: c.src_calls.clone(), polled: false };
+          observable::from_future_result(f, $sched).box_it()
         }
         Src::IterCount(n) => {
           let it = CountingIter {
